@@ -152,9 +152,22 @@ impl Engine for EngineManagementSystem {
 impl Parsable<EngineMessage> for EngineManagementSystem {
     fn parse(&self, frame: &Frame) -> Option<EngineMessage> {
         match frame.id().pgn() {
-            PGN::TorqueSpeedControl1 => Some(EngineMessage::TorqueSpeedControl(
-                spn::TorqueSpeedControl1Message::from_pdu(frame.pdu()),
-            )),
+            PGN::TorqueSpeedControl1 => {
+                if frame.id().source_address() != self.destination_address {
+                    return None;
+                }
+                if let Some(destination_address) = frame.id().destination_address() {
+                    if destination_address != self.destination_address
+                        && destination_address != 0xff
+                    {
+                        return None;
+                    }
+                }
+
+                Some(EngineMessage::TorqueSpeedControl(
+                    spn::TorqueSpeedControl1Message::from_pdu(frame.pdu()),
+                ))
+            }
             PGN::ElectronicBrakeController1 => {
                 if frame.id().source_address() != self.destination_address {
                     return None;
